@@ -129,7 +129,9 @@ def gen_payload(rng: Rng, text_only: bool = False, urlsafe: bool | None = None, 
     if r < 0.16:
         return bytes([rng.randrange(256)])
     if r < 0.30:
-        return rng.pick([b"a.b.c", b"...", b"eyJhbGciOiJub25lIn0.e30.", b"\x00\x00", b"\xff\xfe\xfd", b"{\"sub\":\"x\"}"])
+        return rng.pick([b"a.b.c", b"...", b"eyJhbGciOiJub25lIn0.e30.", b"\x00\x00", b"\xff\xfe\xfd", b"{\"sub\":\"x\"}",
+                         # payloads whose base64url text also occurs in the header segment (they begin like a header)
+                         b"{\"a", b"{\"alg\"", b"{\"alg\":\"H", b"{\"alg\":\"E", b"{\"alg\":\"R", b"{\"k"])
     if r < 0.45:
         return json.dumps({"sub": "u%d" % rng.randrange(1000), "n": rng.randrange(10**6)}).encode()
     return rng.bytes_(rng.randrange(1, max_len))
@@ -143,7 +145,9 @@ _EXTRA = [
     ("jku", ["https://issuer.example/jwks.json", "http://a/b?c=d&e=f"]),
     ("x5t", ["dGh1bWI", "AAAA"]),
     ("x5u", ["https://x.example/cert.pem"]),
-    ("x5c", [["MIIB", "MIIC"], [], K.x5c_fixture()["chain"], K.x5c_fixture()["chain"][:1]]),
+    ("x5c", [["MIIB", "MIIC"], [], K.x5c_fixture()["chain"], K.x5c_fixture()["chain"][:1],
+             # a chain as long as a real one (the encoded header passes 6000 characters)
+             K.x5c_fixture()["chain"] * 8]),
     # an embedded public key with its own kid / alg / use beside the header's (DPoP, ACME)
     ("jwk", [{"kty": "EC", "crv": "P-256", "x": "f83OJ3D2xF1Bg8vub9tLe1gHMzV76e8Tus9uPHvRVEU", "y": "x_FEzRu9m36HLN_tue659LNpXW6pCyStikYjKIWI5a0",
               "kid": "embedded-key", "alg": "ES256", "use": "sig"},
@@ -151,10 +155,13 @@ _EXTRA = [
 ]
 
 
-def gen_extra(rng: Rng, n_max: int = 3) -> dict:
+def gen_extra(rng: Rng, n_max: int = 3, long_ok: bool = False) -> dict:
     out = {}
     for name, vals in rng.sample(_EXTRA, rng.randrange(0, n_max + 1)):
         out[name] = copy.deepcopy(rng.pick(vals))
+    if not long_ok and len(out.get("x5c") or []) > 4:
+        # (the long chain only where a check does not enumerate every bit of the header)
+        out["x5c"] = out["x5c"][:2]
     return out
 
 
